@@ -85,6 +85,13 @@ pub struct Ext {
     pub seal_slack_us: u64,
     pub batch_delivered_to: HashSet<(usize, Digest)>,
     pending_votes: HashMap<Digest, Vec<(usize, usize, Round, u64)>>,
+    /// Puppet world: index of the current quiescence step, and step-granular global maxima.
+    pub step: u64,
+    pub w2: bool,
+    w2_vote: (Round, u64),
+    w2_timeout: (Round, u64),
+    w2_acting: (Round, u64),
+    w2_qc_committed_to: (Round, u64),
 }
 
 impl Ext {
@@ -122,6 +129,12 @@ impl Ext {
             seal_slack_us: 20_000,
             batch_delivered_to: HashSet::new(),
             pending_votes: HashMap::new(),
+            step: 0,
+            w2: false,
+            w2_vote: (0, 0),
+            w2_timeout: (0, 0),
+            w2_acting: (0, 0),
+            w2_qc_committed_to: (0, 0),
         }
     }
 }
@@ -396,6 +409,19 @@ fn consensus_written(o: &mut Observer, ev: &TapEvent, m: &ConsensusMessage) {
                         // C19: certificates inside own proposals.
                         check_emitted_qc(o, i, &b.qc, "in its proposal");
                         note_qc_shown(o, i, &b.qc);
+                        if o.ext.w2 {
+                            let step = o.ext.step;
+                            if b.qc.round > o.ext.w2_qc_committed_to.0 {
+                                o.ext.w2_qc_committed_to = (b.qc.round, step);
+                            }
+                            let (ar, as_) = o.ext.w2_acting;
+                            if as_ < step && ar > b.round {
+                                o.violate("C10", "acting-round-regressed", Some(i), format!("node {} proposed for round {} in step {} after acting in round {} in step {}", i, b.round, step, ar, as_));
+                            }
+                            if b.round > ar {
+                                o.ext.w2_acting = (b.round, step);
+                            }
+                        }
                         if let Some(tc) = &b.tc {
                             check_emitted_tc(o, i, tc, "in its proposal");
                         }
@@ -485,6 +511,32 @@ fn consensus_written(o: &mut Observer, ev: &TapEvent, m: &ConsensusMessage) {
                 }
             }
             check_round_evidence(o, i, v.round, "vote");
+            if o.ext.w2 {
+                // Quiescence-stepped world: everything emitted in an earlier step was decided
+                // earlier, whatever the connection.
+                let step = o.ext.step;
+                let (vr, vs) = o.ext.w2_vote;
+                let (tr, ts) = o.ext.w2_timeout;
+                let (ar, as_) = o.ext.w2_acting;
+                if vs < step && vr >= v.round && vr > 0 {
+                    o.violate("C03", "vote-round-not-increasing", Some(i), format!("node {} voted for round {} in step {} after voting for round {} in step {}", i, v.round, step, vr, vs));
+                }
+                if ts < step && tr >= v.round && tr > 0 {
+                    o.violate("C03", "vote-after-timeout", Some(i), format!("node {} voted for round {} in step {} after its timeout for round {} in step {}", i, v.round, step, tr, ts));
+                }
+                if as_ < step && ar > v.round {
+                    o.violate("C10", "acting-round-regressed", Some(i), format!("node {} voted for round {} in step {} after acting in round {} in step {}", i, v.round, step, ar, as_));
+                }
+                if v.round > vr {
+                    o.ext.w2_vote = (v.round, step);
+                }
+                if v.round > ar {
+                    o.ext.w2_acting = (v.round, step);
+                }
+                if qc_round > o.ext.w2_qc_committed_to.0 {
+                    o.ext.w2_qc_committed_to = (qc_round, step);
+                }
+            }
             let lk = o.ext.link_core.entry((i, dst)).or_default();
             let mut msgs: Vec<(&str, &str, String)> = Vec::new();
             if lk.any_vote && v.round <= lk.max_vote_round {
@@ -515,6 +567,26 @@ fn consensus_written(o: &mut Observer, ev: &TapEvent, m: &ConsensusMessage) {
             }
             check_emitted_qc(o, i, &t.high_qc, "in its timeout");
             check_round_evidence(o, i, t.round, "timeout");
+            if o.ext.w2 {
+                let step = o.ext.step;
+                let (ar, as_) = o.ext.w2_acting;
+                let (qr, qs) = o.ext.w2_qc_committed_to;
+                if as_ < step && ar > t.round {
+                    o.violate("C10", "acting-round-regressed", Some(i), format!("node {} sent a timeout for round {} in step {} after acting in round {} in step {}", i, t.round, step, ar, as_));
+                }
+                if qs < step && t.high_qc.round < qr {
+                    o.violate("C10", "timeout-high-qc-below-known", Some(i), format!("node {} sent in step {} a timeout carrying a QC of round {} after having voted for / sent a QC of round {} in step {}", i, step, t.high_qc.round, qr, qs));
+                }
+                if t.round > o.ext.w2_timeout.0 {
+                    o.ext.w2_timeout = (t.round, step);
+                }
+                if t.round > ar {
+                    o.ext.w2_acting = (t.round, step);
+                }
+                if t.high_qc.round > o.ext.w2_qc_committed_to.0 {
+                    o.ext.w2_qc_committed_to = (t.high_qc.round, step);
+                }
+            }
             let lk = o.ext.link_core.entry((i, dst)).or_default();
             let mut msgs: Vec<(&str, &str, String)> = Vec::new();
             if t.round < lk.max_acting_round {
